@@ -22,11 +22,11 @@ MANIFEST = {
             'independent reader/writer used to alter the wire, z3.  COSE_Sign1 / x5chain key selection is outside '
             'the claim (certificate path validation cannot run here).',
     'ref': '5 C03'}
-BOUNDS = {'quick': dict(message_kinds='MAC0', target_data='4 symbolic octets', alterations=11),
-          'thorough': dict(message_kinds='MAC0', target_data='12 symbolic octets', alterations=11)}
+BOUNDS = {'quick': dict(message_kinds='MAC0', target_data='4 symbolic octets', alterations=13, targets='1 (payload) | 2 (payload + extension block)'),
+          'thorough': dict(message_kinds='MAC0', target_data='12 symbolic octets', alterations=13, targets='1 | 2')}
 ASSUMPTIONS = [
     'ideal MAC / key wrap: verification succeeds iff same key and identical to-be-MACed octets',
-    'AAD scope as produced by the source (primary block and target metadata); one target (the payload block)',
+    'AAD scope as produced by the source (primary block and target metadata); one or two targets',
     'COSE_Sign1 and certificate-based key selection not covered; COSE_Mac with key wrap fails inside pycose 1.1.0 itself '
     '(HMAC classes have no get_key_length), as the repository\'s own test expects',
 ]
